@@ -4,8 +4,9 @@
     G (Mem/GoStore.v): value trees + a heap of cells; Y (Mem/ReflectModel.v): yaegi's frame slots
     holding aliasing or detached reflect.Values.  Both run the operation grammar of GoStore.v
     (assignment, tuple assignment, :=, field / element update, append, copy, 2- and 3-index slicing,
-    map insert / delete / lookup, &, *, range over arrays / slices / pointers to arrays with a body,
-    calls by value and by pointer) and print the whole pool at every [ODump]. *)
+    map insert / delete / lookup, &, *, conversion to interface{} and type assertion (an interface value is
+    a boxed value tree: boxing a struct copies it, boxing a pointer / slice / map shares the referent),
+    range over arrays / slices / pointers to arrays with a body, calls by value and by pointer) and print the whole pool at every [ODump]. *)
 From Verif Require Import Mem.GoStore Mem.ReflectModel Mem.Cases Mem.Proofs.
 
 (** The property at full strength: for every growth policy, every operation sequence and every
